@@ -108,3 +108,6 @@ Definition check_case (c : case) : Z * Z * Z :=
   | CaseSV c => check_mcase validate_sv update_sv sv_path sv_defaults 400 c
   | CaseTK c => check_mcase validate_tk update_tk tk_path tk_defaults 500 c
   end.
+
+(** the chain state after genesis with the regenerated default parameters *)
+Definition ps_init : pstate := mkPS cs_defaults fm_defaults ht_defaults sv_defaults tk_defaults.
